@@ -4,6 +4,7 @@ Every random draw of a simulator goes through a scripted random source that enum
 the probabilities the simulator itself passes to the draw; the resulting exact distribution over all records is
 compared with the independent reference (contracts/refsim.py: projective measurement with collapse, invert masks,
 confusion maps, repeated keys, qudits, classical control)."""
+import itertools
 import random
 
 import numpy as np
@@ -72,7 +73,19 @@ def _gen_circuit(rng, clifford=False, qudit=False):
             e = rng.choice([0.5, 0.25, 1.0, 0.37])
             op = rng.choice([cirq.H(q[0]), cirq.X(q[0]) ** e, cirq.Y(q[0]) ** e, cirq.T(q[0])] + ([cirq.CNOT(*q), cirq.CZ(*q) ** e, cirq.ISWAP(*q) ** 0.5] if n > 1 else []))
         if keys_used and rng.random() < 0.25:
-            op = op.with_classical_controls(rng.choice(keys_used)[0])
+            k_, shape_ = rng.choice(keys_used)
+            if rng.random() < 0.35 and not clifford:
+                # sympy conditions: the key as an integer, by digit, and both in one expression
+                import sympy
+                sym, idx = sympy.Symbol(k_), sympy.IndexedBase(k_)
+                i_ = rng.randrange(len(shape_))
+                forms = [sympy.Eq(sym, rng.randrange(0, 3)), sym > 0, sympy.Eq(idx[i_], 1), sympy.Eq(sym, 2) & sympy.Eq(idx[len(shape_) - 1], 0),
+                         sympy.Or(sympy.Eq(idx[0], 1), sympy.Eq(sym, 1)), sympy.Eq(idx[0] + sym, 2)]
+                if len(shape_) > 1:
+                    forms.append(sympy.Xor(sympy.Eq(idx[0], 1), sympy.Eq(idx[1], 1)))
+                op = op.with_classical_controls(rng.choice(forms))
+            else:
+                op = op.with_classical_controls(k_)
         ops.append(op)
     if not any(cirq.is_measurement(o) for o in ops):
         ops.append(cirq.measure(*qs, key="a"))
@@ -293,4 +306,50 @@ def standin_sampling_statistics(tier, seed):
 
     return f(tier, seed)
 standin_sampling_statistics.prop = "C02"
-STANDINS = [standin_born, standin_born_scenarios, standin_tableau_measure, standin_sampling_statistics, standin_keyed_channels]
+
+def standin_sympy_conditions(tier, seed):
+    """sympy conditions over every value of a two-bit (and a qutrit-bit) record: plain symbol = integer value, indexed = digit, both
+    mixed in one expression; the controlled flip happens exactly when the expression, read that way, is true (all simulators)"""
+    import cirq
+    import sympy
+
+    cases, fails = 0, []
+    q = cirq.LineQubit.range(3)
+    a, ai = sympy.Symbol("a"), sympy.IndexedBase("a")
+    forms = {
+        "a == 2": (sympy.Eq(a, 2), lambda v, d: v == 2),
+        "a > 1": (a > 1, lambda v, d: v > 1),
+        "a[0] == 1": (sympy.Eq(ai[0], 1), lambda v, d: d[0] == 1),
+        "a[0] xor a[1]": (sympy.Xor(sympy.Eq(ai[0], 1), sympy.Eq(ai[1], 1)), lambda v, d: (d[0] == 1) != (d[1] == 1)),
+        "a == 2 and a[1] == 0": (sympy.Eq(a, 2) & sympy.Eq(ai[1], 0), lambda v, d: v == 2 and d[1] == 0),
+        "a[0] == 1 or a == 1": (sympy.Or(sympy.Eq(ai[0], 1), sympy.Eq(a, 1)), lambda v, d: d[0] == 1 or v == 1),
+        "a[0] + a == 3": (sympy.Eq(ai[0] + a, 3), lambda v, d: d[0] + v == 3),
+        "a * a[1] == 3": (sympy.Eq(a * ai[1], 3), lambda v, d: v * d[1] == 3),
+    }
+    sims = [("Simulator", lambda: cirq.Simulator()), ("DensityMatrixSimulator", lambda: cirq.DensityMatrixSimulator()), ("CliffordSimulator", lambda: cirq.CliffordSimulator()),
+            ("Simulator(split_untangled_states=False)", lambda: cirq.Simulator(split_untangled_states=False))]
+    for (label, (expr, truth)), bits in itertools.product(forms.items(), itertools.product((0, 1), repeat=2)):
+        v = bits[0] * 2 + bits[1]
+        c = cirq.Circuit([cirq.X(q[i]) for i in (0, 1) if bits[i]], cirq.measure(q[0], q[1], key="a"), cirq.X(q[2]).with_classical_controls(expr), cirq.measure(q[2], key="out"))
+        want = int(bool(truth(v, bits)))
+        for name, mk in sims:
+            cases += 1
+            try:
+                got = int(mk().run(c, repetitions=1).measurements["out"][0][0])
+            except Exception as ex:
+                fails.append(dict(args=dict(condition=label, record=list(bits), simulator=name), failed="sympy-condition-raised", clause=f"{ex!r}"))
+                continue
+            if got != want:
+                fails.append(dict(args=dict(condition=label, record=list(bits), simulator=name, circuit=repr(c)), failed="sympy-condition",
+                                  clause=f"with record a = {list(bits)} the condition {label} is {bool(want)}, but the controlled X was {'applied' if got else 'not applied'}"))
+    seen, uniq = set(), []
+    for f_ in fails:
+        k = (f_["failed"], f_["args"]["condition"])
+        if k not in seen:
+            seen.add(k)
+            uniq.append(f_)
+    return dict(function="cirq-core/cirq/value/condition.py:SympyCondition.resolve", case="sympy-conditions", bound="8 condition forms x all 4 values of a two-bit record x 4 simulators (exhaustive)",
+                cases=cases, distinct=cases, failures=len(uniq), exhaustive=True, _fails=uniq[:4])
+standin_sympy_conditions.prop = "C02"
+
+STANDINS = [standin_born, standin_born_scenarios, standin_tableau_measure, standin_sampling_statistics, standin_keyed_channels, standin_sympy_conditions]
